@@ -459,8 +459,14 @@ pub fn gen_related(t: &mut Tape) -> Related {
 pub fn gen_case(t: &mut Tape) -> Case {
     match t.weighted(&[1, 6, 8]) {
         0 => Case(RefAddr::Unknown),
-        1 => Case(RefAddr::Tcp4 { src: gen::gen_v4(t), dst: gen::gen_v4(t), sport: gen::gen_port(t), dport: gen::gen_port(t) }),
-        _ => Case(RefAddr::Tcp6 { src: gen::gen_v6(t), dst: gen::gen_v6(t), sport: gen::gen_port(t), dport: gen::gen_port(t) }),
+        1 => {
+            let (src, dst) = gen::gen_v4_pair(t);
+            Case(RefAddr::Tcp4 { src, dst, sport: gen::gen_port(t), dport: gen::gen_port(t) })
+        }
+        _ => {
+            let (src, dst) = gen::gen_v6_pair(t);
+            Case(RefAddr::Tcp6 { src, dst, sport: gen::gen_port(t), dport: gen::gen_port(t) })
+        }
     }
 }
 
